@@ -34,13 +34,14 @@ func (c13) Batches(tier string, seed uint64) []core.Batch {
 
 func (c13) Mandatory(tier string) []string {
 	return []string{"members:0", "members:1", "members:2-4", "members:5+", "size:0", "size:odd", "last-odd:padded", "last-odd:unpadded", "name:16-bytes", "name:slash-terminated",
-		"blank-numeric-fields", "zero-padded-numeric-fields", "member-after-odd", "data:magic-inside", "delivery:bytes.Reader", "delivery:os.File", "delivery:exact-EOF-ReaderAt",
+		"blank-numeric-fields", "zero-padded-numeric-fields", "member-after-odd", "pad-byte:not-newline-then-member", "data:magic-inside", "delivery:bytes.Reader", "delivery:os.File", "delivery:exact-EOF-ReaderAt",
 		"read:immediately", "read:after-advance", "read:continued-after-advance", "read:reseek", "read:ReadAt"}
 }
 
 type c13Case struct {
 	Members  []model.ArMember `json:"members"`
 	PadLast  bool             `json:"padlast"`
+	Pad      *byte            `json:"pad,omitempty"` // padding byte after odd-sized members; nil = '\n'
 	Delivery string           `json:"delivery"`
 	Seed     uint64           `json:"seed"`
 }
@@ -97,6 +98,14 @@ func genArMembers(r *core.Rand, maxMembers int) []model.ArMember {
 
 func (p c13) run(c *core.C, t *core.T, cs c13Case) {
 	raw := model.WriteAr(cs.Members, cs.PadLast)
+	if cs.Pad != nil && *cs.Pad != '\n' {
+		raw = model.WriteArPad(cs.Members, cs.PadLast, *cs.Pad)
+		for i, m := range cs.Members {
+			if len(m.Data)%2 == 1 && i < len(cs.Members)-1 {
+				c.Cover("pad-byte:not-newline-then-member")
+			}
+		}
+	}
 	var src io.ReaderAt
 	cr := &core.CountingReaderAt{HeaderLen: 60, Size: int64(len(raw))}
 	switch cs.Delivery {
@@ -302,6 +311,10 @@ func (p c13) RunBatch(t *core.T, b core.Batch) {
 	r := t.Rand("ar", fmt.Sprint(b.Arg))
 	for i := 0; i < b.N; i++ {
 		cs := c13Case{Members: genArMembers(r, 8), PadLast: r.Bool(), Delivery: r.Pick([]string{"bytes.Reader", "bytes.Reader", "os.File", "exact-EOF-ReaderAt"}), Seed: r.U64()}
+		if r.Chance(1, 4) {
+			pb := r.PickByte("\x00\x00 `\xff0")
+			cs.Pad = &pb
+		}
 		in, _ := json.Marshal(cs)
 		t.Case("ar", in, func(c *core.C) { p.run(c, t, cs) })
 	}
